@@ -72,7 +72,7 @@ theorem fragLoop_ne (unit : Nat) (sr : Int) (lb fuel pos raw : Nat) (payload b :
     (h : fragLoop unit sr lb (fuel + 1) pos raw payload = .ok b) : b ≠ [] := by
   unfold fragLoop at h
   dsimp only at h
-  generalize (if raw > 65536 then 65536 else if raw ≥ 16384 then raw &&& 0xc000 else raw) = part at h
+  generalize (if raw ≥ 65536 then 65536 else if raw ≥ 16384 then raw &&& 0xc000 else raw) = part at h
   cases hL : appendLength pos sr part with
   | error e => rw [hL] at h; simp at h
   | ok lenBits =>
@@ -82,7 +82,7 @@ theorem fragLoop_ne (unit : Nat) (sr : Int) (lb fuel pos raw : Nat) (payload b :
     by_cases h0 : part + lb = 0
     · simp only [h0, if_true, Except.ok.injEq] at h; rw [← h]; exact hne
     · simp only [h0, if_false] at h
-      by_cases hr : raw - part > 0
+      by_cases hr : raw - part > 0 ∨ part ≥ 16384
       · simp only [hr, if_true] at h
         split at h
         · simp at h
